@@ -1,6 +1,6 @@
 """Builder histories and stand-alone writer cases (DESIGN 5.3, builder / writer streams).
 A history is (ctor string, [op strings]) in the case-file syntax of the harness."""
-from .lib import Rng, FAM_SIZE, expr, fill, hx
+from .lib import Rng, FAM_SIZE, expr, fill, hx, special_ip6, special_ip4
 
 INT_KINDS = [("u8", 8, False), ("u16", 16, False), ("u32", 32, False), ("u64", 64, False), ("u128", 128, False),
              ("usize", 64, False), ("i8", 8, True), ("i16", 16, True), ("i32", 32, True), ("i64", 64, True),
@@ -32,7 +32,9 @@ def rand_addr(rng, fam=None):
     if fam == 1:
         return "4,%s,%s,%d,%d" % (hx(rng.bytes(4)), hx(rng.bytes(4)), rng.below(65536), rng.below(65536))
     if fam == 2:
-        return "6,%s,%s,%d,%d" % (hx(rng.bytes(16)), hx(rng.bytes(16)), rng.below(65536), rng.below(65536))
+        a = special_ip6(rng) if rng.chance(1, 3) else rng.bytes(16)
+        b = special_ip6(rng) if rng.chance(1, 3) else rng.bytes(16)
+        return "6,%s,%s,%d,%d" % (hx(a), hx(b), rng.below(65536), rng.below(65536))
     return "X,%s,%s" % (hx(rng.bytes(108)), hx(rng.bytes(108)))
 
 
